@@ -43,11 +43,33 @@ def wtAggBase (g : Agg) : Bool :=
 
 def wtAgg (g : Agg) : Bool := wtAggBase g && aggExact g.seed.ty g.bodyTy
 
+def isAcc : AE → Bool
+  | .acc => true
+  | _ => false
+
+/-- every occurrence of `acc` is an operand of `/`, or of `+ - *` whose other operand is of
+floating type: exactly the positions where Python converts the integer accumulator to a float -/
+def accOK (cur : Ty) : AE → Bool
+  | .acc => false
+  | .bin op p q =>
+    (if isAcc p then (op == .div || (tyAE .int cur q).isFloating) else accOK cur p) &&
+    (if isAcc q then (op == .div || (tyAE .int cur p).isFloating) else accOK cur q)
+  | .neg p => accOK cur p
+  | _ => true
+
+/-- the static side condition of the widened case: int seed, floating body, `acc` only in
+positions where Python converts it -/
+def aggWiden (g : Agg) : Bool :=
+  g.seed.isNatLit && g.bodyTy.isFloating && accOK (curT (chainTy none g.c.steps)) g.body
+
+/-- static well-typedness of one aggregate for the theorems: exact typing, or the widened case -/
+def wtAggW (g : Agg) : Bool := wtAggBase g && (aggExact g.seed.ty g.bodyTy || aggWiden g)
+
 def wtGE : GE → Bool
   | .int _ => true
   | .dbl _ _ => true
   | .bool _ => true
-  | .agg g => wtAgg g
+  | .agg g => wtAggW g
   | .bin _ a b => wtGE a && wtGE b && (tyGE a).isNum && (tyGE b).isNum
   | .cmp _ a b => wtGE a && wtGE b && (tyGE a).isNum && (tyGE b).isNum
   | .neg a => wtGE a && (tyGE a).isNum
@@ -67,10 +89,23 @@ def AggTyped (QC : QCtx D) (g : Agg) : Prop :=
   ∀ cty l, QC.ev.find g.c.bank = some (cty, .vec l) →
     ∀ v ∈ l, MethTyped v (methsSteps g.c.steps) ∧ MethTyped v (methsAE g.body)
 
+/-- A WIDENED aggregate (int seed, floating body — e.g. `Sum()` of floats) ranges over at least one
+kept element on this event. (Over an empty sequence the query denotes the INTEGER seed and the
+emitted code writes the floating seed: numerically equal, different values of the model — left to
+the numeric comparison of the correspondence stream, like `SumNonEmpty`.) Vacuous under `aggExact`. -/
+def AggNonEmpty (QC : QCtx D) (g : Agg) : Prop :=
+  aggExact g.seed.ty g.bodyTy = false →
+    ∀ cty l ws, QC.ev.find g.c.bank = some (cty, .vec l) → elemsSem QC g.c.steps l = .ok ws → ws ≠ []
+
+/-- what the theorems assume of the event for one aggregate -/
+def AggHyp (QC : QCtx D) (g : Agg) : Prop := AggTyped QC g ∧ AggNonEmpty QC g
+
 /-- the value of a seed -/
 def Seed.val (N : Num D) : Seed → Val D
   | .int n => .int n
   | .dbl m e => .dbl (N.ofDec m e)
+  | .nint n => .int (-(n : Int))
+  | .ndbl m e => .dbl (N.neg (N.ofDec m e))
 
 /-- one step of the user-level fold: the body with `acc` and the element bound -/
 def aggStep (QC : QCtx D) (g : Agg) (a w : Val D) : Except Fault (Val D) :=
